@@ -409,7 +409,7 @@ impl TypeScript {
                 format!(
                     " && ({})",
                     ids.iter()
-                        .map(|id| format!("key === \"{id}\""))
+                        .map(|id| format!("key === {id:?}"))
                         .join(" || ")
                 )
             });
